@@ -76,14 +76,14 @@ def run(prop, tier, seed, replay=None):
     t0 = time.time()
     quick = tier == "quick"
     layer = (json.load(open(replay)).get("scenario") or {}).get("layer") if replay is not None else None
-    if prop == "C07" and layer in ("L0", "L1"):
+    if prop in ("C07", "C19") and layer in ("L0", "L1"):
         # a finding of one of the embedded parts: replica side (harness L0) / controller side (L1)
         import fam_controller, fam_replica
-        v, k, st = (fam_controller if layer == "L1" else fam_replica).run("C07", tier, seed, replay=replay, embed=True)
+        v, k, st = (fam_controller if layer == "L1" else fam_replica).run(prop, tier, seed, replay=replay, embed=True)
         for _, rec in k:
-            print("KNOWN-FINDING: property=C07 %s" % _.get("what", ""))
+            print("KNOWN-FINDING: property=%s %s" % (prop, _.get("what", "")))
         for path, rec in v:
-            print("VIOLATION property=C07 replay=%s" % path)
+            print("VIOLATION property=%s replay=%s" % (prop, path))
         return 1 if v else 0
     build_harness(["clusterdrv"])
     build_repo_binary(os.path.join(BUILD, "jiva"))
@@ -220,6 +220,14 @@ def run(prop, tier, seed, replay=None):
             v0, k0, l0 = fam_replica.run("C07", tier, seed, embed=True)
             violations += v0
             known += k0
+        if prop == "C19" and replay is None:
+            # the new controller's half on harness L1: a replica with a preset clone status (and one
+            # whose status changes while the controller polls) -- it may be served only once the
+            # status says so, a failed clone makes the start fail and leaves nothing attached
+            import fam_controller
+            v1, k1, l1 = fam_controller.run("C19", tier, seed, embed=True)
+            violations += v1
+            known += k1
         conclusive = promos = 0
         samples = []
         for t, evs in by_t.items():
